@@ -503,8 +503,50 @@ func (Engine) Run(c *choice.Src, o engine.Opt) (out engine.Out) {
 		return true
 	}
 
+	// write-back: the consumer keeps the slice returned by Store() and hands it to the disk only
+	// some operations later (a buffered write). What reaches the disk must still be the state at
+	// the moment Store() was called: the returned slice is a snapshot, not a view.
+	type heldWrite struct {
+		held, want []byte
+		opIdx      int
+		off        uint64
+		after      int
+	}
+	var heldWrites []heldWrite
+	flushHeld := func(all bool) bool {
+		keep := heldWrites[:0]
+		for _, h := range heldWrites {
+			h.after--
+			if h.after > 0 && !all {
+				keep = append(keep, h)
+				continue
+			}
+			if !bytes.Equal(h.held, h.want) {
+				viol("store", "store.result-mutated", "the slice returned by Store() at offset %d changed while the generator was used further (it must be a snapshot)", h.off)
+				return false
+			}
+			disk = append(disk, ckpt{bytes: append([]byte(nil), h.held...), opIdx: h.opIdx, off: h.off})
+			ev("buffered checkpoint of op %d offset %d reaches the disk", h.opIdx, h.off)
+		}
+		heldWrites = keep
+		return true
+	}
 	for step := 0; step < nops; step++ {
+		if len(heldWrites) > 0 && !flushHeld(false) {
+			return out
+		}
 		k := c.Weighted([]int{wRead, wDerived, wCkpt, wCrash}, "op")
+		if k == 3 && len(heldWrites) > 0 {
+			// a crash loses buffered writes; the held slices are still checked
+			for _, h := range heldWrites {
+				if !bytes.Equal(h.held, h.want) {
+					viol("store", "store.result-mutated", "the slice returned by Store() at offset %d changed while the generator was used further (it must be a snapshot)", h.off)
+					return out
+				}
+			}
+			heldWrites = nil
+			out.Faults["lost_buffered_write"]++
+		}
 		switch k {
 		case 0, 1:
 			var oo op
@@ -564,6 +606,14 @@ func (Engine) Run(c *choice.Src, o engine.Opt) (out engine.Out) {
 			ops = append(ops, oo)
 			results = append(results, r1)
 		case 2:
+			if c.Bool(1, 4, "writeback") {
+				held := p.Store() // kept as returned: no copy, no scribble
+				heldWrites = append(heldWrites, heldWrite{held: held, want: append([]byte(nil), held...), opIdx: len(ops), off: off, after: 1 + c.Choose(3, "writeback.after")})
+				ev("checkpoint at op %d offset %d: buffered, written later", len(ops), off)
+				out.Faults["buffered_write"]++
+				fp = append(fp, "ckpt-buffered")
+				continue
+			}
 			st := store(p)
 			if !bytes.Equal(st, twin.Store()) {
 				viol("twin", "twin.store", "Store() differs from the never-crashed twin after %d ops", len(ops))
